@@ -236,7 +236,7 @@ def first_doc_line(obj):
     return doc.strip().split("\n", 1)[0].strip()
 
 
-FUNCS = ["vf.targets.work", "vf.targets.block", "vf.targets.fail", "vf.targets.one", "vf.targets.two"]
+FUNCS = ["vf.targets.work", "vf.targets.block", "vf.targets.fail", "vf.targets.one", "vf.targets.two", "vf.targets.eat", "vf.targets.eat"]
 CBS = ["vf.targets.ecb", "vf.targets.ccb", "vf.targets.aecb"]
 
 
@@ -254,16 +254,16 @@ def domain(pname, rng, method=None):
         p = r.choice(CBS)
         return importlib.import_module("vf.targets").__dict__[p.rsplit(".", 1)[1]], p
     if pname == "args":
-        v = r.choice([(), (1,), (1, 2), ("x",), [3, 4], (None, True)])
+        v = r.choice([(), (1,), (1, 2), ("x",), [3, 4], (None, True), ([1, 2],), ([1, 2],)])
         return v, lit(v)
     if pname == "kwargs":
         v = r.choice([{}, {"a": 1}, {"b": "y", "c": [1, 2]}])
         return v, lit(v)
     if pname == "arg_iter":
-        v = r.choice([[], [1], [1, 2, 3], ("a", "b"), [(1, 2), 5], [None]])
+        v = r.choice([[], [1], [1, 2, 3], ("a", "b"), [(1, 2), 5], [None], [[1, 2, 3]], [[1, 2, 3]], [[4], [5, 6]]])
         return v, lit(v)
     if pname == "args_iter":
-        v = r.choice([[], [(1,)], [(1, 2), (3, 4)], [("a",), ("b", "c")], [[1], [2]]])
+        v = r.choice([[], [(1,)], [(1, 2), (3, 4)], [("a",), ("b", "c")], [[1], [2]], [([7, 8],)], [([7, 8],)]])
         return v, lit(v)
     if pname == "kwargs_iter":
         v = r.choice([[], [{"a": 1}], [{"a": 1}, {"a": 2, "b": 3}], [{"x": "y"}]])
